@@ -100,7 +100,15 @@ export async function checkSet(ctx, parsers, names0, cores, env, rng, cfg, overr
     // each named definition equals the one a fresh context produces for that name
     for (const n of names) {
       for (const [dn, dv] of Object.entries(fresh.get(n).defs)) {
-        if (!(dn in r.defs)) return { fault: { clause: "definition-missing", cause: "absent", detail: `${dn} (needed by ${n})`, seq }, judged };
+        if (!(dn in r.defs)) {
+          // attribution: do the fresh contexts of the parsers already disagree about the body of some
+          // synthetic variant name (two different unions given one name - the recorded finding)? then
+          // whichever union printed first owns the name, and the other one's variants go missing
+          const synth = new Map();
+          for (const m of names) for (const [k, v] of Object.entries(fresh.get(m).defs)) if (k.startsWith("Discriminated")) synth.set(k, (synth.get(k) || new Set()).add(stable(v)));
+          const collide = [...synth.values()].some((b) => b.size > 1) ? "|two-unions-share-the-name-in-fresh-contexts" : "";
+          return { fault: { clause: "definition-missing", cause: "absent" + collide, detail: `${dn} (needed by ${n})`, seq }, judged };
+        }
         if (stable(r.defs[dn]) !== stable(dv)) {
           const empty = stable(r.defs[dn]) === "{}";
           // attribution: do two FRESH contexts (one per parser) already give this name two different
